@@ -1,6 +1,23 @@
-From LD Require Import Base F32 Data Model Ops Bucket Eval EvalFacts.
-(* first obligation; the full statements of DESIGN.md section 6 are added as they are proved *)
-Theorem C13_invalid_ctx_untouched : forall re_ok re_match o E P f,
-  run re_ok re_match o E P CInvalid f = Done (mkoutcome (err_detail KUserNotSpecified) false []).
-Proof. exact run_invalid. Qed.
-Print Assumptions C13_invalid_ctx_untouched.
+(* C13 Concurrent evaluations are safe and agree with sequential ones (partial: the Go memory model is not
+   formalised).  (i) abstract schedule-independence for threads that write only private state (below);
+   (ii) source level: gen/Effects.v, regenerated from the repository on every run, and the theorems of
+   EffectsProof.v -- nothing reachable from Evaluate writes shared memory, starts goroutines or uses sync primitives;
+   (iii) run time: N goroutines over one evaluator and shared data under the race detector. *)
+From LD Require Import Base Interleave.
+
+Theorem C13_interleave_independent : forall (Shared Priv : Type) (step : Shared -> Priv -> Priv) sh sched ts i,
+  run_schedule Shared Priv step sh sched ts i = iter Priv (steps_of i sched) (step sh) (ts i).
+Proof. exact interleave_independent. Qed.
+Print Assumptions C13_interleave_independent.
+
+Theorem C13_other_threads_unobservable : forall (Shared Priv : Type) (step : Shared -> Priv -> Priv) sh s1 s2 ts i,
+  steps_of i s1 = steps_of i s2 ->
+  run_schedule Shared Priv step sh s1 ts i = run_schedule Shared Priv step sh s2 ts i.
+Proof. exact schedule_irrelevant. Qed.
+Print Assumptions C13_other_threads_unobservable.
+
+Theorem C13_concurrent_equals_sequential : forall (Shared Priv : Type) (step : Shared -> Priv -> Priv) sh sched ts i,
+  run_schedule Shared Priv step sh sched ts i =
+  run_schedule Shared Priv step sh (repeat i (steps_of i sched)) ts i.
+Proof. exact concurrent_equals_sequential. Qed.
+Print Assumptions C13_concurrent_equals_sequential.
